@@ -2,7 +2,8 @@
 use crate::common::*;
 use crate::pres::*;
 use credx::knox::short_group_sig_core::short_group_traits::ShortGroupSignatureScheme;
-use credx::presentation::Presentation;
+use credx::presentation::{Presentation, PresentationSchema};
+use credx::statement::Statements;
 use serde_json::json;
 
 fn run_suite<S: ShortGroupSignatureScheme>(em: &mut Emitter, base: &mut Rng, suite: &str, n: usize) {
@@ -37,6 +38,40 @@ fn run_suite<S: ShortGroupSignatureScheme>(em: &mut Emitter, base: &mut Rng, sui
         if !scn.verify(&p).is_ok() {
             em.violation("honest-verify-rejected", format!("{}: honest presentation rejected: {}", suite, mix.describe()), scn.replay(json!({"suite": suite})));
             continue;
+        }
+        // model: the validation logic of create and the plan stage of verify accept this (schema, credentials, presentation)
+        if let Some(line) = create_line(&scn.credentials, &scn.schema) {
+            em.op(line, "true");
+        }
+        em.op(plan_line(&scn.schema, &p, suite), plan_class(&p, &scn.schema, &scn.nonce).0);
+        // the same statements listed in other orders (reversed: predicates before signatures, range before its
+        // commitment; rotated): the order of a schema's statement list carries no meaning
+        let sts: Vec<Statements<S>> = scn.schema.statements.values().cloned().collect();
+        let mut orders: Vec<(&str, Vec<Statements<S>>)> = vec![("reversed", sts.iter().rev().cloned().collect())];
+        if sts.len() > 2 {
+            let r = 1 + rng.below(sts.len() as u64 - 1) as usize;
+            let mut rot = sts.clone();
+            rot.rotate_left(r);
+            orders.push(("rotated", rot));
+            // range statements first
+            let mut rf: Vec<Statements<S>> = sts.iter().filter(|s| matches!(s, Statements::Range(_))).cloned().collect();
+            if !rf.is_empty() {
+                rf.extend(sts.iter().filter(|s| !matches!(s, Statements::Range(_))).cloned());
+                orders.push(("range-first", rf));
+            }
+        }
+        for (oname, st) in orders {
+            let sch = PresentationSchema::new_with_id(&st, &scn.schema.id);
+            em.oracle_case(&format!("{} order {}", key, oname));
+            match call(|| Presentation::create(&scn.credentials, &sch, &scn.nonce)) {
+                Out::Ok(q) => {
+                    if !call(|| q.verify(&sch, &scn.nonce)).is_ok() {
+                        em.violation("honest-verify-rejected:statement-order", format!("{}: honest presentation rejected when the statements are listed in {} order: {}", suite, oname, mix.describe()), json!({"suite": suite, "order": oname, "schema": serde_json::to_value(&sch).unwrap_or_default(), "mix": mix.describe()}));
+                    }
+                    em.op(plan_line(&sch, &q, suite), plan_class(&q, &sch, &scn.nonce).0);
+                }
+                o => em.violation("honest-create-failed:statement-order", format!("{}: Presentation::create {} when the statements are listed in {} order: {}", suite, o.class(), oname, mix.describe()), json!({"suite": suite, "order": oname, "mix": mix.describe()})),
+            }
         }
         // encode / decode before verification
         let bare = serde_bare::to_vec(&p).unwrap();
@@ -95,7 +130,7 @@ fn run_suite<S: ShortGroupSignatureScheme>(em: &mut Emitter, base: &mut Rng, sui
 
 /// random graphs of equality statements over claims that all hold the same value (both hashed
 /// positions of 2..3 credentials), statements listed in random order
-fn equality_graphs<S: ShortGroupSignatureScheme>(em: &mut Emitter, base: &mut Rng, suite: &str) {
+pub fn equality_graphs<S: ShortGroupSignatureScheme>(em: &mut Emitter, base: &mut Rng, suite: &str) {
     use credx::claim::*;
     use credx::statement::*;
     use indexmap::IndexMap;
@@ -105,7 +140,9 @@ fn equality_graphs<S: ShortGroupSignatureScheme>(em: &mut Emitter, base: &mut Rn
             continue;
         }
         let rng = &mut base.sub(2_000_000 + (2 * k + off) as u64);
-        let n_creds = 2 + rng.below(2) as usize;
+        // fixed bridging patterns over four credentials first, then random graphs over 2..4 credentials
+        let fixed: Vec<Vec<(usize, usize)>> = vec![vec![(0, 1), (2, 3), (1, 2)], vec![(0, 1), (2, 3), (2, 1)], vec![(0, 1), (2, 3), (0, 3)], vec![(2, 3), (0, 1), (1, 2), (0, 3)], vec![(0, 1), (1, 2), (2, 3)], vec![(0, 3), (1, 2), (3, 1)]];
+        let n_creds = if k < fixed.len() { 4 } else { 2 + rng.below(3) as usize };
         let mix = Mix { n_creds, n_claims: 6, disclosed: (0..n_creds).map(|_| vec![]).collect(), age: 30, ..Default::default() };
         let mut scn = Scn::<S>::build(rng, &mix);
         for c in 0..n_creds {
@@ -131,8 +168,17 @@ fn equality_graphs<S: ShortGroupSignatureScheme>(em: &mut Emitter, base: &mut Rn
                 o => o.clone(),
             })
             .collect();
-        let n_eq = 2 + rng.below(4) as usize;
+        let n_eq = if k < fixed.len() { 0 } else { 2 + rng.below(4) as usize };
         let mut desc = vec![];
+        if k < fixed.len() {
+            for (e, (a, b)) in fixed[k].iter().enumerate() {
+                let mut m = IndexMap::new();
+                m.insert(scn.sig_ids[*a].clone(), 1usize);
+                m.insert(scn.sig_ids[*b].clone(), 1usize);
+                desc.push(format!("{:?}", m));
+                stmts.push(EqualityStatement { id: format!("eq{}", e), ref_id_claim_index: m }.into());
+            }
+        }
         for e in 0..n_eq {
             let mut m = IndexMap::new();
             let mut order: Vec<usize> = (0..n_creds).collect();
